@@ -2,7 +2,8 @@
    for what remains wrong. *)
 From Coq Require Import List Bool NArith ZArith Lia Arith.
 From Coq.Strings Require Import Byte String.
-From Verif Require Import Base.Bytes Idl.Ast Idl.AstFacts Idl.Lex Idl.LexFacts Idl.Parse Idl.Print Idl.PrintFacts Idl.Dump Idl.DumpFacts Idl.DumpLexFacts Idl.DumpParseFacts.
+From Verif Require Import Base.Bytes Idl.Ast Idl.AstFacts Idl.Lex Idl.LexFacts Idl.Parse Idl.Print Idl.PrintFacts Idl.Dump Idl.DumpFacts.
+From Verif Require Import Idl.DumpLexFacts Idl.DumpParseFacts.
 Import ListNotations.
 
 (* ---- c17_norm does not look at recorded comments *)
@@ -76,13 +77,13 @@ Definition sample_file : file :=
     [Include (B "a""b.thrift") None None]
     [B "<x&y>"]
     [Namespace (B "go") (B "a.b") [Anno (B "k") [B "&"; hx "61 5c 22 62"]]; Namespace [p_star] (B "n") []]
-    [Typedef (ty_plain kw_map (Some (ty_named (B "string"))) (Some (ty_plain kw_list None (Some (ty_plain (B "i32") None None [] [Anno (B "e") [B "#OUTQUOTES"]])) [] [])) [] []) (B "T") [Anno (B "t") [B "##34;"]] []]
+    [Typedef (ty_plain kw_map (Some (ty_named (B "string"))) (Some (ty_plain kw_list None (Some (ty_plain (B "i32") None None [] [Anno (B "e") [B "#OUTQUOTES"]])) [] [])) [] []) (B "T") [Anno (B "t") [B "##34;"]] (B "// leading comment of T")]
     [Constant (B "c") (ty_named (B "double")) (CList [CDouble 4609434218613702656; CDouble 4617315517961601024; CInt (-7); CLiteral (B "it's"); CMap [(CIdent (B "E.A") None, CList [])]]) [] []]
-    [Enum (B "E") [EnumValue (B "A") (-3) [] []; EnumValue (B "B") 0 [Anno (B "x") [B "y"]] []] [] []]
-    [StructLike SKStruct (B "S") [Field (-1) (B "a") ReqOptional (ty_named (B "i32")) (Some (CInt 5)) [Anno (B "k") [B "v"]] []; Field 2 (B "b") ReqDefault (ty_named (B "T")) None [] []] [] []]
+    [Enum (B "E") [EnumValue (B "A") (-3) [] (hx "2f 2f 20 61 0a 2f 2a 20 62 20 2a 2f"); EnumValue (B "B") 0 [Anno (B "x") [B "y"]] []] [] (B "/* block */")]
+    [StructLike SKStruct (B "S") [Field (-1) (B "a") ReqOptional (ty_named (B "i32")) (Some (CInt 5)) [Anno (B "k") [B "v"]] []; Field 2 (B "b") ReqDefault (ty_named (B "T")) None [] (B "// end of line comment of b")] [] (hx "2f 2f 20 6f 6e 65 0a 2f 2f 20 74 77 6f")]
     [StructLike SKUnion (B "U") [] [] []]
     [StructLike SKException (B "X") [Field 1 (B "m") ReqRequired (ty_named (B "string")) None [] []] [] []]
-    [Service (B "Sv") (B "Base") [Function (B "f") true true (ty_named kw_void) [Field 1 (B "a") ReqDefault (ty_named (B "i32")) (Some (CInt 5)) [Anno (B "k") [B "v"]] []] [] [] [];
+    [Service (B "Sv") (B "Base") [Function (B "f") true true (ty_named kw_void) [Field 1 (B "a") ReqDefault (ty_named (B "i32")) (Some (CInt 5)) [Anno (B "k") [B "v"]] []] [] [] (B "// doc of f");
                                    Function (B "g") false false (ty_named (B "S")) [] [Field 1 (B "e") ReqOptional (ty_named (B "X")) None [] []; Field 2 (B "e2") ReqOptional (ty_named (B "X")) None [] []] [Anno (B "fn") [B "z"]] []] [] None []]
     None.
 
